@@ -16,11 +16,14 @@ No statement counter (`State.count` is never touched), no statement budget, no h
   functions, as in the implementation); the once-evaluated array value, its length and — when the source names no index
   variable — the index are held by the interpreter, not in variables.  A named index variable is a real variable: it is
   assigned 0, read at the start of each iteration, incremented after the body with the host's `+` and the loop goes on
-  while the host's `<` says `index < length`.
+  while the host's `<` says `index < length`.  The interpreter's own index is a `Value` advanced with the same host `+`
+  and tested with the same host `<` (for the concrete host: 0, 1, 2, …); a variable is read as the expression
+  `.variable x` reads it (`readVar`).
 * `include` and raw `label` / `jump` have no structured meaning (error outcome).
 
 `fuel` only makes the definitions structurally recursive (every recursive call is on `fuel`, given `fuel+1`): it bounds
-the *depth* of the evaluation, is not threaded through, and more fuel never changes a result other than `.oof`.
+the *depth* of the evaluation and is not threaded through; the theorems (C01Erase) speak about every sufficiently large
+fuel.
 Script function values are indices into a table `sfuns` of *structured* definitions; library functions are the same
 interaction trees as on the machine side (`Machine.runTree`), with call-backs into `callS`.
 -/
